@@ -237,8 +237,16 @@ def run_check(mod):
     # 3. the model on the same cases, inside Coq
     mismatches, corr_errors = [], []
     if not b['corr_broken']:
-        good = [i for i, o in enumerate(obs) if not (isinstance(o, dict) and 'harness_error' in o)]
-        terms = [mod.to_coq(cases[i], obs[i]) for i in good]
+        good, terms = [], []
+        for i, o in enumerate(obs):
+            if isinstance(o, dict) and 'harness_error' in o:
+                continue
+            try:
+                terms.append(mod.to_coq(cases[i], o))
+                good.append(i)
+            except Exception as e:       # an observation the term printer cannot express: reported, never a crash
+                if not any(j == i for j, _ in oracle_fail):
+                    oracle_fail.append((i, {'signature': 'unprintable_observation:%s' % type(e).__name__, 'kind': repr(e)[:200]}))
         mismatches, corr_errors = coqio.run_cases(prop, mod.CORR_MODULE, mod.CASE_TYPE, getattr(mod, 'MISMATCH_FN', 'mismatches'), terms,
                                                   shard=getattr(mod, 'SHARD', 300))
         mismatches = [good[i] for i in mismatches]
